@@ -284,18 +284,40 @@ class C18(Cfg):
 
 class C19(Cfg):
     rule = ("ZTS <size> <bytes>: ALL strings of length <= 3 (quick) / <= 4 (thorough) over {00,'a',C3,A9,E2,82,AC,F0,9F,98,80,"
-            "C0,ED,A0,FF} x sizes 0..7 (exhaustive), random longer strings with sizes up to 65535; non-trivial = input "
-            "non-empty and size > 0; distinct by request")
+            "C0,ED,A0,FF} x sizes 0..7 (exhaustive), random longer strings with sizes up to 65535; IDS <storage> <bytes>: raw "
+            "messages whose four 4-byte id fields (storage ECU id, header ECU id, application id, context id) hold arbitrary "
+            "bytes - every 4-byte string over the alphabet with a NUL in 2nd/3rd position (quick) / all 15^4 (thorough) plus "
+            "random ones - parsed with dlt_message; non-trivial = input non-empty and size > 0 (ZTS), message parsed (IDS); "
+            "distinct by request")
     observable = "(returned string bytes, remainder length) or (incomplete, hint)"
     exhaustive = True
-    explanation = "C19_zts / C19_zts_short / C19_utf8 for all inputs; the run compares with dlt_zero_terminated_string (std from_utf8)"
+    explanation = ("C19_zts / C19_zts_short / C19_utf8 for all inputs; the run compares dlt_zero_terminated_string and the ids "
+                   "returned by dlt_message with the model and with the Spec (RFC 3629 scalar decoding, longest valid prefix by search)")
 
     def nontrivial(self, req, ans, m=None):
         t = req.split()
+        if t[0] == "IDS":
+            return ans.startswith("OK")
         return t[1] != "0" and hexlen(t[2]) > 0
 
     def classify(self, req, ans, m=None):
-        return "ZTS:" + " ".join(ans.split()[:2])
+        return req.split(" ", 1)[0] + ":" + " ".join(ans.split()[:2] if not ans.startswith("OK") else ["OK"])
+
+    def spec_ok(self, req, ans, spec):
+        """the crate's own answer against the Spec (Spec/Zts.lean): exact text and remainder for a
+        complete field, hint within [1, missing] for an incomplete one; ids of a parsed message
+        are what the Spec reads at the id offsets"""
+        if spec == "skip":
+            return True
+        if req.startswith("IDS"):
+            return (not ans.startswith("OK ")) or ans[3:] == spec
+        if spec.startswith("OK"):
+            return ans == spec
+        missing = int(spec.split()[1])
+        t = ans.split()
+        if t[:2] != ["ERR", "INCOMPLETE"]:
+            return False
+        return t[2] == "?" or 1 <= int(t[2]) <= missing
 
 
 class C06(Cfg):
